@@ -3,3 +3,4 @@ import PlumpyModel.Outline.Proof
 import PlumpyModel.Expose.Proof
 import PlumpyModel.Ports.Model
 import PlumpyModel.Savable.Proof
+import PlumpyModel.Props.C20
